@@ -16,7 +16,7 @@ func init() {
 		Technique:   "do/undo pairing over the handler pairs registered with TaskRunner.AddHandler: task-data key agreement, save-before-mutate / restore-from-saved field provenance (SSA) for link-snap, guarded-sink of snapstate.Set by the backend effect in every link/unlink handler, deferred-cleanup registration after the backend effect; who-may-write of the \"snaps\" state key",
 		Explanation: "Structural necessary conditions for 'a failed install/refresh/revert leaves the snap as it was': (R1) for every (do, undo) pair registered by the snap manager, every old-* task-data key saved by do is read by its undo and every old-* key read by an undo is saved by a do paired with it; (R2) link-snap: each field of the recorded snap state that the property lists and doLinkSnap changes (current revision, tracking channel, try/dev/jail/classic flags, ignore-validation, cohort key, refresh-inhibited and last-refresh times, revert status, position of the candidate in the sequence) is saved under an old-* key from a read of that same field that no change of the field can precede, the save is on every path to the state write, and undoLinkSnap writes the field back from that same key (Active back to false) before its own state write; (R3) each do handler with a backend effect has the inverse effect in its undo (link/unlink, setup/undo-setup, copy/undo-copy data); (R4) in doLinkSnap the clean-up closure that unlinks (or relinks the old snapd) is deferred right after backend.LinkSnap on every path that can still fail, and acts only when the handler's error result is set; (R5) every do and undo handler that links or unlinks a snap writes the snap state only after that backend effect succeeded (sibling agreement); (R6) the \"snaps\" state key is written only by snapstate.Set; (R7) the undo bookkeeping helpers are exhaustive: countMissingRevs leaves its loop over the recorded revisions only by exhausting it, and SaveRevisionConfig, once the snap has a configuration, overwrites the saved copy of that revision and stores the map on every successful return.",
 		NotDecided:  "the index arithmetic of re-inserting the candidate beyond countMissingRevs being exhaustive; contents of the saved revision configuration; aliases; that every task of the change has such a pair (the other kinds are covered by R1/R3 only).",
-		Run:         func(c *Ctx) { runC10(c); runC10y(c) },
+		Run:         func(c *Ctx) { runC10(c); runC10y(c); runC10z(c) },
 	})
 }
 
